@@ -362,6 +362,35 @@ def run(ctx):
             if t.kind == "test" and norm(t.expr) == "len(feasible_trials) == 0" and any(m is r for k, m in t.succ if k == "t"):
                 ok = True
     ctx.check(ok, "R12.5", f.short, "raises-when-none-feasible", message="no ValueError when no feasible trial exists", how="len(feasible_trials) == 0 -> raise ValueError")
+    # a best-valued trial WITHOUT recorded constraints is not feasible by the library's own predicate (_get_feasible_trials: constraints is not
+    # None and all <= 0): returning it unexamined is right only in an unconstrained study, so on the `constraints is None` side some look at the
+    # other trials (is the study constrained? / the feasible set) has to precede the return
+    from sa.expr import edges_implying
+
+    def _nn(e):
+        if isinstance(e, ast.Compare) and len(e.ops) == 1 and isinstance(e.comparators[0], ast.Constant) and e.comparators[0].value is None:
+            l = resolve(e.left, defs)
+            if "_CONSTRAINTS_KEY" in norm(l) and isinstance(e.ops[0], (ast.IsNot, ast.Is)):
+                return ("notnone", isinstance(e.ops[0], ast.IsNot))
+        return None
+    safe = []
+    for t in g.stmt_nodes():
+        if t.kind == "test":
+            for k in edges_implying(t.expr, _nn, ["notnone"], lambda a: a["notnone"]):
+                safe += [(t, k2, m) for k2, m in t.succ if k2 == k]
+    consult = [n for n in g.stmt_nodes() if any((dotted(c.func) or "").endswith("_get_feasible_trials") for c in n.calls())
+               or any(isinstance(x, ast.Compare) and isinstance(x.ops[0], ast.In) and "_CONSTRAINTS_KEY" in norm(x.left) and norm(x.comparators[0]).endswith(".system_attrs")
+                      for x in n.walk())]
+    rets = [n for n in g.stmt_nodes() if n.kind == "stmt" and isinstance(n.ast, ast.Return)]
+    r_ = g.reachable([g.entry], avoid_nodes=consult, avoid_edges=safe, edge_ok=NORMAL)
+    hit = [n for n in rets if n in r_]
+    ctx.check(not hit, "R12.5", f.short, "best-without-constraints-is-examined",
+              message="Study.best_trial returns the storage's best-valued trial unexamined when that trial has no recorded constraints (key missing, or None because "
+                      "constraints_func raised): in a constrained study it is not feasible by _get_feasible_trials' own predicate, so with feasible COMPLETE trials "
+                      "present best_trial is an infeasible trial and disagrees with best_trials. Input: values 0.05 (constraints None), 0.3 (violated), 0.7, 0.9 (feasible), "
+                      "minimise: best_trial is #0, best_trials is [#2]",
+              how="on the `constraints is None` side a test whether any trial has constraints (or the feasible set) precedes the return",
+              where=where(f, hit[0].ast) if hit else None)
     f = p.func("optuna.study._constrained_optimization._get_feasible_trials")
     conds = [norm(n.test) for n in own_nodes(f.node) if isinstance(n, ast.If)]
 
